@@ -195,7 +195,28 @@ def rand_atts(rng, allow_false=True):
     return (fg, bg) + tuple(st)
 
 
-def rand_runs(rng, maxruns=4, maxlen=6, alphabet=None, allow_false=True):
+BIG_RATE = 0.04
+
+
+def rand_big_runs(rng, alphabet=None, allow_false=True):
+    """beyond the small scope: MANY runs (17-48 short ones) or LONG text (a run of 65-700 characters, total lengths
+    around powers of two included) -- fast paths and chunked processing only start above some size"""
+    if alphabet is None:
+        alphabet = ALPHA_PLAIN
+    if rng.random() < 0.5:
+        n = rng.choice([17, 18, 24, 32, 33, 48])
+        return [["".join(rng.choice(alphabet) for _ in range(rng.choice([0, 1, 1, 2, 3]))),
+                 list(rand_atts(rng, allow_false))] for _ in range(n)]
+    long_len = rng.choice([65, 100, 127, 128, 129, 255, 256, 257, 300, 511, 512, 513, 700])
+    runs = [[rand_text(rng, 6, alphabet), list(rand_atts(rng, allow_false))] for _ in range(rng.choice([1, 2, 3]))]
+    k = rng.randrange(len(runs) + 1)
+    runs.insert(k, ["".join(rng.choice(alphabet) for _ in range(long_len)), list(rand_atts(rng, allow_false))])
+    return runs
+
+
+def rand_runs(rng, maxruns=4, maxlen=6, alphabet=None, allow_false=True, big=True):
+    if big and rng.random() < BIG_RATE:
+        return rand_big_runs(rng, alphabet, allow_false)
     n = rng.choice([0, 1, 1, 2, 2, 3, maxruns])
     return [[rand_text(rng, maxlen, alphabet), list(rand_atts(rng, allow_false))] for _ in range(n)]
 
